@@ -60,7 +60,7 @@ func (p *propC11) Prepare(seed uint64, tier string) int {
 	maxAll := 8192
 	maxCorpus := 2200
 	nModel := 10
-	if tier == "thorough" {
+	if isThorough(tier) {
 		maxAll = 32768
 		maxCorpus = 150000
 		nModel = 40
@@ -95,7 +95,7 @@ func (p *propC11) Prepare(seed uint64, tier string) int {
 	}
 	// chains of 2-3 small frames
 	nChains := 4
-	if tier == "thorough" {
+	if isThorough(tier) {
 		nChains = 12
 	}
 	var small []poolEntry
